@@ -23,6 +23,9 @@ def dispatch(pid, tier, replay):
     if pid == "C07":
         import tax_checks
         return tax_checks.c07(tier)
+    if pid == "C17":
+        import static_checks
+        return static_checks.c17(tier)
     raise common.MachineryError("no check for " + pid)
 
 
